@@ -113,6 +113,8 @@ theorem RT.run {T : Target} (h : RT T) (now : Nat) : RT (T.run now) := by
   split
   · exact h
   split
+  · exact h
+  split
   · rename_i r hr
     rcases h.req r hr with rfl | ⟨ms, rfl⟩
     · exact h.endLoop .manual now (by intro e; cases e) (fun e => by cases e)
@@ -144,6 +146,8 @@ theorem RT.step {s : State} (h : RT s.target) (op : Op) : RT (Timers.step s op).
     | none => rw [step_abort_none hτ]; exact h
     | some τ => rw [step_abort_some hτ]; split <;> exact h
   | hold => exact ⟨h.failed_src, h.poison_src, h.drained_src, h.ps_drained, h.ps_nofail, h.req⟩
+  | startHold => exact ⟨h.failed_src, h.poison_src, h.drained_src, h.ps_drained, h.ps_nofail, h.req⟩
+  | started => exact ⟨h.failed_src, h.poison_src, h.drained_src, h.ps_drained, h.ps_nofail, h.req⟩
   | stop =>
     show RT { s.target.stop .manual with manualStop := true }
     have : RT (s.target.stop .manual) := by
